@@ -84,6 +84,10 @@ def fault_job(job):
             w = rng.choice(['@@', '%%', '$x', 'a@b', '!', 'x=1', '*', '~t', '@@ %%', '&& ||'])
             t2 = ''.join(toks[:i] + [' ', w, ' '] + toks[i:])
             out.append(('symbol-word', t2, props, PC.impl_parse(t2, props)))
+        # a byte-order mark is only a byte-order mark at the very start: U+FEFF anywhere else is a stray character
+        for i in [i for i in bounds if i > 0][25:37]:
+            t2 = ''.join(toks[:i] + [rng.choice(['\ufeff', ' \ufeff ', '\ufeff\n'])] + toks[i:])
+            out.append(('stray U+FEFF', t2, props, PC.impl_parse(t2, props)))
         nls = [i for i, t in enumerate(toks) if t == '\n']
         rng.shuffle(nls)
         for i in nls[:15]:
